@@ -233,6 +233,97 @@ theorem bodies_call_done (t : Table) (w : World) (c : Nat) (inTx inv : Bool) (en
       · simp [hr, PEv.bodies]
       · simp [hr, PEv.bodies]
 
+/-! ### programs that talk about one key only (`cache.lock`) -/
+
+theorem lockProg_onlyKey (key : List Nat) (wait : Bool) : ∀ fuel, (lockProg key wait fuel).OnlyKey key
+  | 0 => trivial
+  | fuel + 1 => by
+    have ih := lockProg_onlyKey key wait fuel
+    simp only [lockProg, Prog.OnlyKey]
+    refine ⟨⟨_, rfl⟩, fun a => ?_⟩
+    have hping : ∀ p : Ans, Prog.OnlyKey key
+        (match p with
+          | .none_ => Prog.body (.done .none_)
+          | _ => if wait then lockProg key wait fuel else .locked) := by
+      intro p
+      cases p <;> simp only [Prog.OnlyKey] <;> (cases wait <;> simp [Prog.OnlyKey, ih])
+    cases a <;> simp [Prog.OnlyKey, Ans.truth]
+    · exact hping
+    · split
+      · exact ⟨⟨_, rfl⟩, hping⟩
+      · exact ⟨⟨_, rfl⟩, fun _ => trivial⟩
+    · exact hping
+
+theorem callbacksFrom_no_removed {t : Table} {w : World} {c : Nat} {env : Env} (h : ∀ n, env.removed n = []) :
+    ∀ (k n : Nat), callbacksFrom t w c env n k = some []
+  | 0, _ => rfl
+  | k + 1, n => by
+    simp [callbacksFrom, h n, callbacksOf, callbacksFrom_no_removed h k (n + 1)]
+
+/-- every facade command such a program runs is a single-key command on that key -/
+theorem Prog.run_onlyKey_sub (t : Table) (w : World) (c : Nat) (inTx inv : Bool) (env : Env) (key : List Nat) :
+    ∀ (p : Prog), p.OnlyKey key → ∀ (ini : List Nat) (n : Nat) (f : FCmd) (calls : List BCall) (cbs : List Call),
+      PEv.sub f calls cbs ∈ (Prog.run t w c inTx inv env p ini n).1 → ∃ cmd, f = .keyed cmd key := by
+  intro p
+  induction p with
+  | done r => intro _ ini n f calls cbs h; simp [Prog.run] at h
+  | locked => intro _ ini n f calls cbs h; simp [Prog.run] at h
+  | outOfFuel => intro _ ini n f calls cbs h; simp [Prog.run] at h
+  | body k ih =>
+    intro hk ini n f calls cbs h
+    simp only [Prog.run, List.mem_cons] at h
+    rcases h with h | h
+    · cases h
+    · exact ih hk ini n f calls cbs h
+  | call g k ih =>
+    intro hk ini n f calls cbs h
+    obtain ⟨hg, hrest⟩ := hk
+    simp only [Prog.run] at h
+    split at h
+    · simp at h
+    · split at h
+      · simp only [List.mem_singleton, PEv.sub.injEq] at h
+        obtain ⟨rfl, _, _⟩ := h
+        exact hg
+      · split at h
+        · simp only [List.mem_singleton, PEv.sub.injEq] at h
+          obtain ⟨rfl, _, _⟩ := h
+          exact hg
+        · simp only [List.mem_cons, PEv.sub.injEq] at h
+          rcases h with ⟨rfl, _, _⟩ | h
+          · exact hg
+          · exact ih _ (hrest _) _ _ f calls cbs h
+
+/-- ... and, when the key has a backend and the backends report no removed keys, it never ends in `NotConfiguredError` -/
+theorem Prog.run_onlyKey_configured (t : Table) (w : World) (c : Nat) (inTx inv : Bool) (env : Env) (key : List Nat)
+    (b : Nat) (hb : t.getBackend key = some b) (hrm : ∀ n, env.removed n = []) :
+    ∀ (p : Prog), p.OnlyKey key → ∀ (ini : List Nat) (n : Nat),
+      (Prog.run t w c inTx inv env p ini n).2.1 ≠ .notConfigured := by
+  intro p
+  induction p with
+  | done r => intro _ ini n; simp [Prog.run]
+  | locked => intro _ ini n; simp [Prog.run]
+  | outOfFuel => intro _ ini n; simp [Prog.run]
+  | body k ih => intro hk ini n; simpa [Prog.run] using ih hk ini n
+  | call g k ih =>
+    intro hk ini n
+    obtain ⟨⟨cmd, rfl⟩, hrest⟩ := hk
+    simp only [Prog.run, execS, hb, Option.map_some, callbacksFrom_no_removed hrm]
+    split
+    · simp
+    · exact ih _ (hrest _) _ _
+
+/-- every backend call a single-key command causes goes to the backend that owns the key -/
+theorem execS_keyed_backend {t : Table} {w : World} {c : Nat} {inTx inv : Bool} {ini : List Nat} {cmd : Cmd}
+    {key : List Nat} {b : Nat} (hb : t.getBackend key = some b) {res : Res} {calls : List BCall} {ini' : List Nat}
+    (h : execS t w c inTx inv ini (.keyed cmd key) = some (res, calls, ini')) : ∀ bc ∈ calls, bc.backend = b := by
+  simp only [execS, hb, Option.map_some, Option.some.injEq] at h
+  intro bc hbc
+  have hc : calls = (stackCall w c inv (targetOf inTx b) cmd [key] ini 0).2.1 := by rw [h]
+  rw [hc] at hbc
+  have := (stackCall_mem w c inv (targetOf inTx b) cmd [key] ini 0 bc hbc).2.1
+  rw [this, target_backend_targetOf]
+
 end CashewsVerif.Disable
 
 namespace CashewsVerif.Disable.Ex
